@@ -647,9 +647,16 @@ func checkAndPropagateArgs(
 		}
 
 		if isNotDefineArgArgsError(isKeyTypeDefineArg, sortedArgTs, argIdx) && !definedArgT.HasDefault() {
+			name := definedArg
+			if definedArgT != nil && definedArgT.IsBuiltin() {
+				// a configured parameter has only a generated id, which differs
+				// with the order the configuration files were loaded in
+				name = "argument"
+			}
+
 			err = fmt.Errorf(
 				"%s is not defined expected %s",
-				definedArg,
+				name,
 				makeDefineArgumentInfo(m, class, methodT),
 			)
 
